@@ -425,6 +425,8 @@ def render_everything(msg: bytes):
 
 
 def _header_worker(args):
+    import sys
+    sys.setrecursionlimit(1000)         # as in a production process (the check process raises it for the engine)
     field, values = args
     out = []
     for v in values:
